@@ -69,9 +69,16 @@ def is_window_queue(eng, v):
     return t["k"] == "adt" and t["path"] == WINDOW
 
 
-def install(eng):
+def install(eng, world=None):
     """install all monitors on an engine (before run)"""
     prog = eng.prog
+    layout = [None]
+
+    def server_path(name):
+        if layout[0] is None:
+            layout[0] = world.server_layout() if world is not None else {}
+        return layout[0].get(name)
+
     fi_chunk = prog.field_index(WINDOW, "chunk_size")
 
     def in_send_side(fr):
@@ -187,11 +194,11 @@ def install(eng):
         return None
 
     def server_field(eng, st, fr, name):
-        i = sfi.get(name)
-        if i is None:
+        pth = server_path(name)
+        if pth is None:
             return None
         root = ("P", ("L", fr.id[:1], 1), ())
-        return eng.read(st, root, (i,))
+        return eng.read(st, root, tuple(pth), eng.static_type(root, tuple(pth)))
 
     def listener_hook(eng, st, fr, bb, base, args, ev, t):
         if fr.region != "listener":
